@@ -52,7 +52,8 @@ def generate_centroids(
         the rank of the input by 1. NaNs will be ignored in the calculation.
     """
     if anchor_ind is not None:
-        centroids = points[..., anchor_ind, :]
+        # Copy: the fallback below writes into `centroids`, which must not alias `points`.
+        centroids = points[..., anchor_ind, :].clone()
     else:
         centroids = torch.full_like(points[..., 0, :], torch.nan)
 
